@@ -134,6 +134,10 @@ def run_expand(ctx, name, factory, modes, kw, rep):
             if got != sorted((p.name, m) for m in modes):
                 ctx.violation("C13:structure-get-pins", f"Structure.get_pins({p.name}) wrong", rep)
                 return False
+        allp = sorted((t[1].basename, str(t[1].mode_name)) for t in st.get_pins())
+        if allp != sorted((p.name, str(m)) for p in pd1 for m in modes) or any(t[0] is not st for t in st.get_pins()):
+            ctx.violation("C13:structure-get-pins", "Structure.get_pins() without a base name does not list exactly the pins of the structure", rep)
+            return False
     except Exception as e:  # noqa
         ctx.violation("C13:structure-basenames" if "basename" in str(e) or isinstance(e, AttributeError) else f"C13:query-raised-{type(e).__name__}",
                       f"a base-name / mode-name query raised {type(e).__name__}: {str(e)[:70]}", rep)
